@@ -15,6 +15,7 @@ import Compress.Proofs.Sticky
 import Compress.Proofs.FlatePrefix
 import Compress.Proofs.FlateRefine
 import Compress.Proofs.Bzip2Cut
+import Compress.Proofs.BrotliCut
 import Compress.Proofs.XFlateReader
 
 namespace Compress.Props.C09
@@ -75,5 +76,13 @@ open Compress.Proofs.Sticky Compress Compress.XFlate Compress.Flate.Impl in
 theorem C09_flate_sticky (s : FState) (e : FErr) (h : s.err = some e) (hd : s.toRead = []) (fuel n : Nat) :
     Compress.Flate.Impl.read (fuel + 1) s n = (s, [], some e) :=
   Compress.Proofs.Sticky.flate_read_sticky s e h hd fuel n
+
+open Compress.Proofs.BrotliCut Compress Compress.Brotli Compress.Proofs.BrCut in
+/-- **A valid Brotli stream cut short at any byte** fails with exactly io.ErrUnexpectedEOF on the specification (brotli.Reader is tied to the specification by the brd correspondence, which compares the reject class on cuts of valid streams). -/
+theorem C09_brotli_cut_is_ueof (dict : ByteArray) (bytes : List UInt8) (out : Array UInt8) (n : Nat)
+    (h : decode dict bytes = { out := out, verdict := .ok n }) (k : Nat) (hk : 8 * k < n) :
+    (decode dict (bytes.take k)).verdict = .unexpectedEOF ∧
+    (decode dict (bytes.take k)).out.toList <+: out.toList :=
+  Compress.Proofs.BrotliCut.decode_cut dict bytes out n h k hk
 
 end Compress.Props.C09
